@@ -334,6 +334,18 @@ theorem text_index_braces :
   refine ⟨?_, ?_, ?_, ?_, ?_⟩ <;>
     simp [fmtExp, fmtIndexes, indexText, joinWith, numIndexBare, strIndexBare, isDigit, isLetter, extraLetters, natDigits, digitChar] <;> decide
 
+/-- a VARIABLE index with an underscore in its name is written in braces (`x__i` would be read as the name fragment
+`_i`, `y_a_b` as two indexes); a plain variable index stays bare (C11-underscore-variable-index-printed-bare, repaired
+in 7719594) -/
+theorem text_underscore_variable_index :
+    fmtExp (.cvar "x" [.var "_i"]) = "x_{_i}"
+    ∧ fmtExp (.cvar "x" [.var "_i", .var "j"]) = "x_{_i}_j"
+    ∧ fmtExp (.cvar "y" [.var "a_b"]) = "y_{\\a_b}"
+    ∧ fmtExp (.cvar "x" [.var "i"]) = "x_i"
+    ∧ fmtToks (.cvar "x" [.var "_i", .var "j"]) = [.word "x", .us, .lbrace, .word "_i", .rbrace, .us, .word "j"] := by
+  refine ⟨?_, ?_, ?_, ?_, ?_⟩ <;>
+    simp [fmtExp, fmtIndexes, indexText, joinWith, varText, needsEscape, fmtToks, fmtToksIdx] <;> decide
+
 /-- … and these trees are in the printable fragment, so `parse_format_printable_exp` gives their round trip: the
 exceptions the fragment carried for the two defects are gone -/
 theorem repaired_inputs_printable :
